@@ -17,7 +17,7 @@ RULE = (
     "(objects ==, numbers identical, registry entries identical); where the current spelling is rejected (cross-type "
     "conversions and constructions with a unit of another quantity type) the legacy spelling is rejected too. Plus FixUnitIfIsLegacy(legacy) == current, idempotent on "
     "all 62 + 1548 symbols, no current symbol rewritten, no legacy spelling registered; spellings combining two legacy fragments (as units "
-    "registered at run time may) are rewritten by the whole chain, idempotently, and alias a run-time unit exactly. Objects created with the legacy spelling in a category registered a moment ago with that spelling carry the current spelling and equal the current-spelled ones. Registration through from_category with explicitly given units (valid_units, default_unit, an unknown unit) behaves like the direct form. Every cell is non-trivial "
+    "registered at run time may) are rewritten by the whole chain, idempotently, and alias a run-time unit exactly. Objects created with the legacy spelling in a category registered a moment ago with that spelling carry the current spelling and equal the current-spelled ones. Registration through from_category with explicitly given units (valid_units, default_unit, an unknown unit) behaves like the direct form. Every spelling is also compared at fixed amounts from 1e-18 to 4e15 (an alias is exact at every magnitude). Every cell is non-trivial "
     "(an alias resolution); key = (spelling, API entry)."
 )
 ASSUMPTIONS = ["arbitrary strings are outside the domain (the rewrite is a substring chain)", "legacy fragments are an independent copy of the documented list; a pair removed from the library is a violation, a pair added is not"]
@@ -364,6 +364,10 @@ def run_shard(spec, ctx):
             return test
 
         core.hunt(ctx, t, spec["seed"] * 1000 + spec["shard"], spec["draws"], shrink=False)
+        # fixed amounts of very small and very large magnitude as well (an alias is exact at every magnitude)
+        for l in mine:
+            for k, (x, y) in enumerate(((1e-15, -3e-14), (2.5e-13, 1e-18), (4e15, -7e12))):
+                ch.check_spelling(l, x, y, k)
         if snapshot.registry_light(db) != reg0:
             ctx.record("registry_changed_by_alias_use", {"kind": "registry"}, "using legacy spellings changed the registry")
     for l in mine:
